@@ -155,6 +155,7 @@ def run(ctx, report: Report) -> None:
                          f'a namespace or custom map - can no longer be pickled with them')
     from .sem import immutable_table
     immutable_table(ctx, r2, classes[1:])
+    own_reducer_rule(ctx, r2, carried)
 
     # ---- R3 --------------------------------------------------------------------------------------------------
     r3 = report.rule('C15-R3', 'contents are frozen; map hash is order independent', floor=6)
@@ -308,7 +309,50 @@ def run(ctx, report: Report) -> None:
     r7 = report.rule('C15-R7', 'what a pattern compiles to does not depend on the patterns compiled before it in the same process (bounded)', floor=10)
     from .e2etab import compile_history_table
     compile_history_table(ctx, r7)
+    from .e2ematch import argument_reuse_table
+    argument_reuse_table(ctx, r7)
 
+
+
+def own_reducer_rule(ctx, rule, carried):
+    """A class of the package that defines its own __reduce__ / __reduce_ex__ is interpreted on an instance of every class that
+    inherits the method: the callable it names, applied to the arguments it names, must build an object of THAT class (a reducer
+    that names the class it is written in turns Namespaces / CustomSelectors into a plain map on pickling and deep copying)."""
+    from ..interp import Interp, Obj, PkgClass, Raised as _Raised, call_function
+    from ..miniev import Unsupported as _Unsupported
+    src = ctx.src
+    samples = [[{'a': 'b'}], [], [('x',)], ['x'], ['x', None]]
+    for c in carried:
+        mq = src.find_method(c, '__reduce__') or src.find_method(c, '__reduce_ex__')
+        if not mq:
+            continue
+        obj = None
+        for args in samples:
+            try:
+                it = Interp(ctx, c.split('.')[0], None, {}, {}, shared={'steps': 0, 'real_immutable': True})
+                obj = it.apply(PkgClass(c), list(args), {})
+                break
+            except (_Raised, _Unsupported, TypeError):
+                continue
+        if not isinstance(obj, Obj):
+            rule.note(f'{c}: inherits {mq} but no sample instance could be built by interpretation (undecided)')
+            continue
+        try:
+            red = call_function(ctx, mq, [] if mq.endswith('__reduce__') else [2], {}, {}, obj, options={'real_immutable': True})
+            ctor, cargs = red[0], list(red[1])
+            it = Interp(ctx, c.split('.')[0], None, {}, {}, shared={'steps': 0, 'real_immutable': True})
+            clone = it.apply(ctor, cargs, {}) if isinstance(ctor, PkgClass) else it.apply(ctor, cargs, {})
+            ccls = object.__getattribute__(clone, '_cls') if isinstance(clone, Obj) else type(clone).__name__
+        except (_Raised, _Unsupported, TypeError, IndexError) as e:
+            rule.note(f'{c}: {mq} could not be interpreted on a sample instance ({e}) (undecided)')
+            continue
+        rule.instance({'class': c, 'reducer': mq, 'rebuilds_class': ccls}, key=f'own-reducer|{c}')
+        rule.obligation(ccls == c)
+        if ccls != c:
+            mn, _, cn = c.partition('.')
+            rule.violation(f'{c} reducer rebuilds {ccls}', src.mods[mn].where(src.mods[mn].classes[cn]),
+                           f'pickling / deep-copying a {c} goes through {mq}, which rebuilds an object of class {ccls}: the copy of a compiled selector '
+                           f'carries a different kind of map (its hash and type differ from the original\'s)')
 
 
 def memo_census_rule(ctx, rule):
